@@ -1,4 +1,4 @@
-CONSTANTS NC = 2 UseLock = TRUE MaxOps = 2 SchedLen = 8
+CONSTANTS NC = 2 UseLock = TRUE MaxOps = 2 SchedLen = 8 OpFilter = "all"
 SPECIFICATION Spec
 INVARIANTS Atomic MutualExclusion
 CHECK_DEADLOCK FALSE
